@@ -44,4 +44,14 @@ def jobs():
             js.append(Job("L3-nonce@id%d-piv%d" % (idl, pivl), "C14/c14.c", "c14_l3_nonce", UNITS, extra_src=EXTRA, defines=["IDL=%d" % idl, "PIVL=%d" % pivl],
                           unwind=18, tier="quick" if quick else "thorough", group="L3-nonce",
                           desc="oscore_generate_nonce == RFC 8613 5.2 for id %d, PIV %d bytes" % (idl, pivl), bounds={"id": idl, "piv": pivl}))
+    # the Partial IV a request is protected with is the full sender sequence number (every value < 2^40): same harness as C15-S2-step
+    import copy
+    from jobs import C15
+    for j in C15.jobs():
+        if j.name == "S2-step":
+            j2 = copy.deepcopy(j)
+            j2.name = "S3-request-partial-iv"
+            j2.group = None
+            j2.desc = "coap_oscore_new_pdu_encrypted_lkd (cut after the nonce/sequence bookkeeping): Partial IV == sender sequence number for every value < 2^40"
+            js.append(j2)
     return js
